@@ -49,7 +49,39 @@ def _f_cross(I):
     return teneva.get_many(tt(), I)
 
 
+def _same2(fn):
+    return lambda Y, **kw: fn(Y, Y, **kw)
+
+
+def tt_shared(n=3, d=4, rho=2, seed=3):
+    """a TT-tensor in which one (Fortran-ordered) ndarray object fills every interior slot"""
+    rng = np.random.default_rng(seed)
+    G = np.asfortranarray(rng.normal(size=(rho, n, rho)))
+    A = np.asfortranarray(rng.normal(size=(1, n, rho)))
+    B = np.asfortranarray(rng.normal(size=(rho, n, 1)))
+    return [A] + [G] * (d - 2) + [B]
+
+
 CALLS = {
+    # the same object passed in two argument positions / the same ndarray in several slots of one tensor
+    'add_same': lambda: (_same2(teneva.add), (tt(),), {}),
+    'sub_same': lambda: (_same2(teneva.sub), (tt(),), {}),
+    'mul_same': lambda: (_same2(teneva.mul), (tt(),), {}),
+    'outer_same': lambda: (_same2(teneva.outer), (tt(),), {}),
+    'mul_scalar_same': lambda: (_same2(teneva.mul_scalar), (tt(),), {}),
+    'accuracy_same': lambda: (_same2(teneva.accuracy), (tt(),), {}),
+    'add_many_same': lambda: ((lambda Y: teneva.add_many([Y, Y, Y], e=1e-10)), (tt(),), {}),
+    'orthogonalize_shared': lambda: (teneva.orthogonalize, (tt_shared(), 1), {}),
+    'orthogonalize_shared_stab': lambda: (teneva.orthogonalize, (tt_shared(), 2), dict(use_stab=True)),
+    'orth_left_shared': lambda: (teneva.orthogonalize_left, (tt_shared(), 1), {}),
+    'orth_right_shared': lambda: (teneva.orthogonalize_right, (tt_shared(), 2), {}),
+    'truncate_shared': lambda: (teneva.truncate, (tt_shared(), 1e-3), {}),
+    'truncate_shared_svd': lambda: (teneva.truncate, (tt_shared(rho=1), 1e-3), dict(is_eigh=False)),
+    'sum_shared': lambda: (teneva.sum, (tt_shared(),), {}),
+    'norm_shared': lambda: (teneva.norm, (tt_shared(),), dict(use_stab=True)),
+    'sample_square_shared': lambda: (teneva.sample_square, (tt_shared(), 5), dict(seed=1)),
+    'optima_tt_shared': lambda: (teneva.optima_tt, (tt_shared(), 3), {}),
+    'tt_to_qtt_shared': lambda: (teneva.tt_to_qtt, (tt_shared(n=4),), {}),
     'add_many': lambda: (teneva.add_many, ([tt(seed=1), tt(seed=2), 3., tt(seed=3)],), {}),
     'add_many_freq': lambda: (teneva.add_many, ([tt(seed=1), tt(seed=2), tt(seed=3), tt(seed=4)],), dict(e=1e-3, r=3, trunc_freq=2)),
     'outer_many': lambda: (teneva.outer_many, ([tt(seed=1), tt(seed=2)],), {}),
